@@ -193,7 +193,9 @@ int KSI_UriClient_setPublicationUrl(KSI_NetworkClient *client, const char *val) 
 	}
 	uriClient = client->impl;
 
-	KSI_UriSplitBasic(val, &schm, &host, &port, &path);
+	res = KSI_UriSplitBasic(val, &schm, &host, &port, &path);
+	/* Running out of memory is not a property of the URL. */
+	if (res == KSI_OUT_OF_MEMORY) goto cleanup;
 	c = client->getClientByUriScheme(schm, &replace);
 
 	switch (c) {
@@ -273,6 +275,8 @@ static int uriClient_setService(KSI_NetworkClient *client, const char *uri, cons
 	uri_client = client->impl;
 
 	res = client->uriSplit(uri, &schm, &ksi_user, &ksi_pass, &host, &port, &path, &query, &fragment);
+	/* Running out of memory is not a property of the URI: do not hand it to the HTTP client as one that could not be parsed. */
+	if (res == KSI_OUT_OF_MEMORY) goto cleanup;
 	if (res != KSI_OK) unableToParse = 1;
 
 	c = client->getClientByUriScheme(schm, &replace);
